@@ -49,8 +49,9 @@ Inner clients are created from `default_kwargs`, which has no `ignore_exc`: the 
 
 Not modelled: the tuple form `(server_key, key)` of a key as far as validation goes (the routing key `rk` *is* a
 separate argument here, so every way of deriving it from the key is covered; but `check_key_helper` is applied to the
-key of the call); the broadcast operations `flush_all`, `stats`, `quit`, `close` (they iterate over
-`self.clients.values()`); `use_pooling=True`.  The multi-key operations `get_many` / `gets_many`, `set_many` and
+key of the call); the broadcast operation `stats` (it iterates over `self.clients.items()`); `use_pooling=True` (see
+`HashPooledCall.lean`).  The broadcast operations `flush_all`, `quit`, `close` / `disconnect_all` (they iterate over
+`self.clients.values()`) are in `HashBroadcast.lean`.  The multi-key operations `get_many` / `gets_many`, `set_many` and
 `delete_many` (a loop of `_run_cmd("delete", …)` inside one public call) are in `HashCallMany.lean`.
 -/
 namespace HashCall
